@@ -121,9 +121,10 @@ Qed.
 Lemma eop_ok fx s o s2 tr :
   safe fx s -> eop_no_hit o = true -> eop_run fx s o = (s2, tr) -> csteps c0 tr = inl c0 /\ safe fx s2.
 Proof.
-  intros Hs Hn H. destruct o as [w|a c ws|n]; simpl in *.
+  intros Hs Hn H. destruct o as [w|a c ws|n|]; simpl in *.
   - destruct (facade_write fx s w) as [[s1 tr1] r] eqn:E. inversion H; subst. eapply facade_write_ok; eassumption.
   - eapply bulk_ok; eassumption.
+  - inversion H; subst. split; [reflexivity | exact Hs].
   - inversion H; subst. split; [reflexivity | exact Hs].
 Qed.
 
